@@ -106,6 +106,8 @@ class Replayer:
         with open(self.trace) as fh:
             for line in fh:
                 ln += 1
+                if not line.endswith("\n") or len(line) < 2:
+                    break                      # truncated last line of a killed process
                 c = line[0]
                 if c == "A" and line[1] == " ":
                     f = line.split()
@@ -387,6 +389,8 @@ def prescan(trace):
     with open(trace) as fh:
         for line in fh:
             c = line[0]
+            if not line.endswith("\n"):
+                break
             if c == "A":
                 n += 1
             elif c == "R":
@@ -462,6 +466,34 @@ def check_trace(ctx, exe, w, consts, steady, window=("suffix", 40000), model_tim
     return S
 
 
+def guarded_build(ctx, limit=300):
+    """The repository's make runs the freshly built chibi-scheme (chibi-ffi on the .stub files): with a damaged
+    allocator that can hang for ever.  So the shared scratch build runs in a child session under a time limit;
+    when it does not finish (or fails because that chibi-scheme crashes), the core (chibi-scheme,
+    libchibi-scheme.so) that make builds first is still there and the embedding workloads run against it.
+    Returns (dir, complete?, why not)."""
+    import signal
+    code = ("import sys; sys.path.insert(0, %r); from vlib import build as B; print(B.build('default'))" % os.path.dirname(HERE))
+    p = subprocess.Popen([sys.executable, "-c", code], stdout=subprocess.PIPE, stderr=subprocess.PIPE, text=True, start_new_session=True)
+    why = ""
+    try:
+        out, err = p.communicate(timeout=limit)
+        if p.returncode == 0 and out.strip():
+            return out.strip().split("\n")[-1], True, ""
+        why = "make failed: " + err[-1200:]
+    except subprocess.TimeoutExpired:
+        try:
+            os.killpg(p.pid, signal.SIGKILL)
+        except OSError:
+            pass
+        p.wait()
+        why = "make did not finish in %d s" % limit
+    d = os.path.join(B.SCRATCH, "default-%s" % B.source_hash())
+    if os.path.exists(os.path.join(d, "chibi-scheme")) and os.path.exists(os.path.join(d, "libchibi-scheme.so")):
+        return d, False, why
+    raise B.BuildError("the scratch build failed and left no chibi-scheme binary: " + why)
+
+
 def model_consts(ctx, exe):
     u, h, m = ctx.run_model(exe, ["consts"])[0].split()
     return dict(unit=int(u), hdr=int(h), min_obj=int(m))
@@ -472,7 +504,10 @@ def run(ctx):
                        "the extracted model; distinct by (workload, event kind, request size or sweep number); non-trivial: every sweep, growth and "
                        "slow-path event, and allocations whose size class is new for the workload")
     from gen import c10_consts
-    d = ctx.build("default")
+    d, complete, why = guarded_build(ctx)
+    if not complete:
+        ctx.broken("build:incomplete", "the repository's make (which runs the fresh chibi-scheme on the .stub files) did not complete (%s); "
+                                       "only the embedding workloads were run, against the core library that was built" % why)
     try:
         vals = c10_consts.regen(ctx, d)
         ctx.note("(G) constants from the headers: %s" % {k: vals[k] for k in ("unit_sz", "hdr_sz", "min_obj", "ratio", "factor")})
@@ -492,13 +527,23 @@ def run(ctx):
         os.unlink(os.path.join(outdir, f))
     total = dict(allocs=0, gcs=0, slow=0, grows=0, ooms=0)
     for (name, kind, cargs, sargs, steady, window) in workloads(ctx.thorough):
-        w = run_workload(d, name, kind, cargs, sargs, outdir)
-        if w["rc"] == "TIMEOUT" or not os.path.exists(w["trace"]):
-            ctx.broken("workload:" + name, "workload did not finish: rc=%s %s" % (w["rc"], w["err"][-300:]))
+        if kind == "scm" and not complete:
             continue
+        w = run_workload(d, name, kind, cargs, sargs, outdir, timeout=(30 if kind == "emb" else 900))
+        if not os.path.exists(w["trace"]):
+            ctx.broken("workload:" + name, "workload left no trace: rc=%s %s" % (w["rc"], w["err"][-300:]))
+            continue
+        if w["rc"] == "TIMEOUT":
+            ctx.violation("workload-hang:" + name, input=name, expected="the workload finishes (seconds on the unchanged tree)",
+                          observed="still running after the time limit; the trace written so far is analysed below", replay=w["replay"])
         if w["rc"] != 0 and "oom" not in name:
             ctx.violation("workload-crash:" + name, input=name, expected="exit 0", observed="rc=%s %s" % (w["rc"], w["err"][-400:]), replay=w["replay"])
-        S = check_trace(ctx, exe, w, consts, steady, window=window, model_timeout=(90 if not ctx.thorough else 600))
+        try:
+            S = check_trace(ctx, exe, w, consts, steady, window=window, model_timeout=(90 if not ctx.thorough else 600))
+        except Exception as e:
+            import traceback
+            ctx.broken("trace-analysis:" + name, "the trace of %s could not be analysed: %s %s" % (name, e, traceback.format_exc()[-600:]), replay=w["replay"])
+            continue
         if S["model_truncated"]:
             ctx.note("model replay of %s stopped by the time limit; the part replayed agrees" % name)
         for k in total:
